@@ -307,6 +307,7 @@ func cfgOf(b *Bounds) interp.RunConfig {
 		MaxConcretize: b.Concretize,
 		MaxWallS:      b.MaxWallS,
 		IntEncoding:   b.Encoding == "int",
+		LabelPrefix:   *flagProp,
 		Params:        b.Params,
 		Solver:        *flagSolver,
 	}
